@@ -216,6 +216,13 @@ class HierDictDocument(DictDocument):
                     retval = self._doc_to_object(ctx, cls, inst, validator)
 
             else:
+                # a value of a type that travels as text must arrive as text
+                if inst is not None and not isinstance(inst,
+                                                self.VALID_UNICODE_SOURCES) \
+                        and issubclass(cls, self.stringified_types + (ByteArray,)) \
+                        and getattr(cls_attrs, 'serialize_as', None) is None:
+                    raise ValidationError([key, inst])
+
                 if cls_attrs.empty_is_none and inst in (u'', b''):
                     inst = None
 
